@@ -142,10 +142,19 @@ End Flow.
 
 
 (* How an abstract event appears on the wire (the harness builds exactly these packets):
-   connection n is 10.0.1.n:40000+n -> 10.0.2.1:80. *)
+     connection n < 100          10.0.1.n:40000+n -> 10.0.2.1:80            (IPv4, distinct addresses)
+     connection 100 <= n < 150   10.0.2.1:40000+n -> 10.0.2.1:80            (IPv4, a host connecting to its own
+                                                                              address: the endpoints differ by port only)
+     connection 150 <= n < 200   [::1]:40000+n -> [::1]:80                   (IPv6 loopback, same address)
+   An address is just a code compared for equality.  Client ports are unique per connection, so every
+   flow key of a trace is distinct whatever the addresses; within a connection the code keeps exactly
+   the one fact the analyzer uses, namely whether client and server address coincide (the IPv6
+   loopback address is therefore given the same code as 10.0.2.1). *)
+Definition wire_sip : N := 167772673.                                       (* 10.0.2.1 / ::1 *)
+Definition wire_cip (n : N) : N := if n <? 100 then 167772416 + n else wire_sip.   (* 10.0.1.n, or the server's own address *)
 Definition wire (e : event) : segment :=
-  let cip := 167772416 + e_conn e in      (* 10.0.1.n *)
-  let sip := 167772673 in                 (* 10.0.2.1 *)
+  let cip := wire_cip (e_conn e) in
+  let sip := wire_sip in
   let cport := 40000 + e_conn e in
   if e_client e
   then mkSeg cip sip cport 80 (e_syn e) (e_fin e) (e_rst e) (e_seq e) (e_pay e)
